@@ -94,6 +94,12 @@ func initTuple() {
 				result = append(result, element)
 			}
 
+			if _, isList := self.SafeAsReference().(value.ArrayList); isList {
+				// the slice of a list is a list (`ArrayList#[]` with a range is typed `ArrayList[Val]`)
+				list := value.ArrayListOfValue(result)
+				return value.Ref(&list), value.Undefined
+			}
+
 			return value.Ref(&result), value.Undefined
 		},
 		DefWithParameters(1),
